@@ -2,6 +2,11 @@ P = "clematis/engine/orchestrator/parallel.py"
 O = "clematis/engine/orchestrator/core.py"
 L = "clematis/engine/util/io_logging.py"
 CASES = [
+    ("capture-keeps-callers-dict", "mutant", "clematis/io/log.py", "            mux.write(str(filename), dict(record))\n", "            mux.write(str(filename), record)\n", "C10.STAGE"),
+    ("capture-copies-inside-buffer", "twin", None,
+     [("clematis/io/log.py", "            mux.write(str(filename), dict(record))\n", "            mux.write(str(filename), record)\n"),
+      ("clematis/engine/util/logmux.py", "        self._buf.append((str(stream), obj))\n", "        self._buf.append((str(stream), dict(obj)))\n")], None, None),
+    ("capture-copy-through-local", "twin", "clematis/io/log.py", "            mux.write(str(filename), dict(record))\n", "            frozen = dict(record)\n            mux.write(str(filename), frozen)\n", None),
     ("dry-run-writes-new-state-key", "mutant", O, "        # --- T1 ---\n        t0 = time.perf_counter()\n", "        # --- T1 ---\n        if isinstance(state, dict):\n            state[\"_last_input\"] = input_text\n        t0 = time.perf_counter()\n", "C10.RO"),
     ("gel-observe-in-dry-run", "mutant", O, "        if graph_enabled and not _dry_run:\n", "        if graph_enabled:\n", "C10"),
     ("t3-in-dry-run", "mutant", O, "        if t3_enabled and not _dry_run:\n", "        if t3_enabled:\n", "C10"),
